@@ -594,7 +594,8 @@ func (a *align) RefCoordinates(name string, refstart, reflen int) (alistart, ali
 		}
 	}
 
-	if refstart+reflen > len(seq)-ngaps {
+	// (compared this way, refstart+reflen can not overflow)
+	if reflen > len(seq)-ngaps-refstart {
 		err = fmt.Errorf("start + Length (%d + %d) on reference sequence falls outside the sequence", refstart, reflen)
 	}
 
